@@ -67,7 +67,7 @@ def save_load(ob, d, ttm):
     ob.frame()
 
 
-OPS = ['clone', 'detach', 'cpu', 'to_dtype', 'to_none', 'numpy']
+OPS = ['clone', 'detach', 'cpu', 'to_dtype', 'to_none', 'to_device', 'to_both', 'to_positional', 'numpy']
 
 
 @scenario('C19', 'copies', ['torchtt._tt_base.TT.clone', 'torchtt._tt_base.TT.detach', 'torchtt._tt_base.TT.to', 'torchtt._tt_base.TT.cpu', 'torchtt._tt_base.TT.numpy'],
@@ -81,6 +81,12 @@ def copies(ob, op, d, ttm):
         r = ex.call(ex.getattr(x, 'to'), [], {'dtype': I.DType('float32')})
     elif op == 'to_none':
         r = ex.call(ex.getattr(x, 'to'), [])
+    elif op == 'to_device':
+        r = ex.call(ex.getattr(x, 'to'), [], {'device': I.CPU})
+    elif op == 'to_both':
+        r = ex.call(ex.getattr(x, 'to'), [], {'device': I.CPU, 'dtype': I.DType('float32')})
+    elif op == 'to_positional':
+        r = ex.call(ex.getattr(x, 'to'), [I.CPU, I.DType('float32')])
     else:
         r = ex.call(ex.getattr(x, op), [])
     if op == 'numpy':
@@ -100,7 +106,7 @@ def copies(ob, op, d, ttm):
     ob.prove('kind', f['is_ttm'] is ttm)
     all_eq(ob, 'N', f['N'], x.N_)
     all_eq(ob, 'R', f['R'], x.R_, 'rank')
-    prove_dtype(ob, r, 'float32' if op == 'to_dtype' else 'float64')
+    prove_dtype(ob, r, 'float32' if op in ('to_dtype', 'to_both', 'to_positional') else 'float64')
     idx = mode_index(ob, r)
     ob.prove_eq('value', val(ob, r, idx), val(ob, x, idx))
     ob.prove('new_object', r is not x)
